@@ -838,7 +838,8 @@ fn reported_error(o: &CliOut, print: &str) -> Option<String> {
     let normal = match print {
         "no-print" => last.is_empty(),
         "summary" => last.is_empty() || last == "-----",
-        _ => last.starts_with("Total computation time: "),
+        // (an empty stdout is never an error *message*; missing results are judged separately)
+        _ => last.is_empty() || last.starts_with("Total computation time: "),
     };
     if !normal {
         return Some(last);
